@@ -1,9 +1,9 @@
-import PynModel.Driver
+import PynModel.DriverExt
 
 partial def loop (h : IO.FS.Stream) (out : IO.FS.Stream) : IO Unit := do
   let line ← h.getLine
   if line.isEmpty then return ()
-  out.putStrLn (Pyn.step line)
+  out.putStrLn (Pyn.stepAll line)
   loop h out
 
 def main : IO Unit := do
